@@ -53,6 +53,7 @@ func c12Specs() []c12Spec {
 		{name: "named-smallcache", pat: `(?<word>[a-z]+) (?<n>\d+)`, opts: []regexp2.CompileOption{
 			regexp2.OptionMaxCachedReplacerDataEntries(4), regexp2.OptionMaxCachedReplacerDataBytes(8),
 			regexp2.OptionMaxCachedRuneBufferLength(4096), regexp2.OptionMaxCachedReplaceBufferLength(4096)}},
+		{name: "timeout-iter", pat: `(a+)+!$|\d+`, timeout: 8 * time.Millisecond},
 		{name: "nobitmap", pat: `[a-cx-z]+[\d_ ]`, opts: []regexp2.CompileOption{regexp2.OptionDisableCharClassASCIIBitmap()}},
 	}
 }
@@ -349,9 +350,15 @@ var c12PoolMu sync.Mutex
 func legC12Hist(c *Ctx) {
 	c12PoolMu.Lock()
 	defer c12PoolMu.Unlock()
-	c.Rule("histories of 8..40 (quick) / 8..400 (thorough) calls over 7 shared Regexps (balancing groups, bool-only-eligible captures, stack limit 65, catastrophic+8ms timeout, RightToLeft, named groups with a 4-entry cache and 4K buffer caps, classes without ASCII bitmaps); inputs of 0..60, ~1K, ~4K, ~16K and >16K bytes crossing the rune-buffer classes, some non-ASCII; 40 replacement strings; ops: MatchString, MatchRunes, FindStringMatch[StartingAt], FindRunesMatch, FindNextMatch, FindAllStringIndex, FindAllRunesIndex, Replace, ReplaceFunc, Split; pooled buffers are poisoned between steps; non-trivial = a step whose runner or buffer was recycled (distinct by history,step)")
+	c.Rule("histories of 8..40 (quick) / 8..400 (thorough) calls over 10 shared Regexps (balancing groups, bool-only-eligible captures, stack limits 65 and 129, three catastrophic patterns with an 8 ms timeout one of which also matches digit runs so that iterations continue under a deadline - a call on a benign text reporting a timeout after less than half its budget, while the process' own ticker shows no scheduling stall, is a violation -, RightToLeft, named groups with a 4-entry cache and 4K buffer caps, classes without ASCII bitmaps); inputs of 0..60, ~1K, ~4K, ~16K and >16K bytes crossing the rune-buffer classes, some non-ASCII; 40 replacement strings; ops: MatchString, MatchRunes, FindStringMatch[StartingAt], FindRunesMatch, FindNextMatch, FindAllStringIndex, FindAllRunesIndex, Replace, ReplaceFunc, Split; pooled buffers are poisoned between steps; non-trivial = a step whose runner or buffer was recycled (distinct by history,step)")
 	regexp2.SetTimeoutCheckPeriod(time.Millisecond)
 	specs := c12Specs()
+	smallCache := 0
+	for i, sp := range specs {
+		if sp.name == "named-smallcache" {
+			smallCache = i
+		}
+	}
 	repls := c12Repls()
 	nh := c.N(600, 1500)
 	maxLen := c.N(40, 400)
@@ -398,6 +405,30 @@ func legC12Hist(c *Ctx) {
 			}
 		}
 	}()
+
+	// a ticker of this process as a witness of scheduling stalls (the library's timeout clock is a ticking goroutine too)
+	var lagAt, beatAt atomic.Int64
+	beatAt.Store(time.Now().UnixNano())
+	go func() {
+		for {
+			select {
+			case <-stopDog:
+				return
+			default:
+			}
+			t0 := time.Now()
+			time.Sleep(500 * time.Microsecond)
+			now := time.Now()
+			if now.Sub(t0) > 2500*time.Microsecond {
+				lagAt.Store(now.UnixNano())
+			}
+			beatAt.Store(now.UnixNano())
+		}
+	}()
+	lagFree := func() bool {
+		now := time.Now().UnixNano()
+		return now-lagAt.Load() > int64(100*time.Millisecond) && now-beatAt.Load() < int64(3*time.Millisecond)
+	}
 
 	// the fixed regression witness of the repaired ensureStorage defect (/repo 0ad14dc)
 	{
@@ -475,7 +506,7 @@ func legC12Hist(c *Ctx) {
 			st.op = 1 + rng.Intn(11)
 			if replaceHeavy && rng.Chance(75) {
 				st.op = 8
-				st.re = Pick(rng, []int{5, 5, 1})
+				st.re = Pick(rng, []int{smallCache, smallCache, 1})
 			}
 			if specs[st.re].timeout != 0 && c12IsDeep(st.text) {
 				st.text = c12Calm(rng, texts)
@@ -513,7 +544,17 @@ func legC12Hist(c *Ctx) {
 			before := s.re.VerifPoolPeek()
 			current.Store(fmt.Sprintf("history #%d step %d %s", h, i, c12StepDesc(st, specs, repls)))
 			beat.Add(1)
+			t0 := time.Now()
 			out := c12Exec(s.re, st, repls, s.ngroups)
+			if el := time.Since(t0); s.spec.timeout != 0 && strings.HasPrefix(out.canon, "ERR match timeout") && !c12IsCatastrophic(st.text) && el < s.spec.timeout/2 {
+				// a call on a benign text that ran for less than half its budget cannot have used it up; the library's
+				// clock is a goroutine that ticks, so the rule is applied only while this process' own ticker shows no stall
+				if lagFree() {
+					fail(i, st, "reported a match timeout after %v on a benign text although MatchTimeout is %v (a deadline left behind by an earlier call?)", el, s.spec.timeout)
+				} else {
+					gates["early-timeout-under-lag"]++
+				}
+			}
 			if st.op == 8 {
 				if bi := regexp2.VerifBytePoolIndex(len(st.text), s.re.VerifPoolConfig().MaxCachedReplaceBufferLength); bi >= 0 {
 					if out.summary[0] == 8 || (out.summary[0] == 9 && out.summary[1] <= 2) || (out.summary[0] == 3 && len(out.canon) > byteSizes[bi]) {
@@ -638,7 +679,25 @@ func legC12Hist(c *Ctx) {
 			fresh := s.spec.compile()
 			current.Store(fmt.Sprintf("history #%d step %d (fresh Regexp) %s", h, i, c12StepDesc(st, specs, repls)))
 			beat.Add(1)
+			t0 := time.Now()
 			fo := c12Exec(fresh, st, repls, s.ngroups)
+			if el := time.Since(t0); s.spec.timeout != 0 && strings.HasPrefix(fo.canon, "ERR match timeout") && !c12IsCatastrophic(st.text) && el < s.spec.timeout/2 && lagFree() {
+				// the same rule on the fresh side, where the call can be repeated: only a timeout that comes back early
+				// on two more freshly compiled Regexps is reported
+				again := 0
+				for try := 0; try < 2; try++ {
+					t1 := time.Now()
+					r2 := c12Exec(s.spec.compile(), st, repls, s.ngroups)
+					if strings.HasPrefix(r2.canon, "ERR match timeout") && time.Since(t1) < s.spec.timeout/2 {
+						again++
+					}
+				}
+				if again == 2 {
+					fail(i, st, "on a freshly compiled Regexp the call reported a match timeout after %v on a benign text although MatchTimeout is %v (three times in a row)", el, s.spec.timeout)
+				} else {
+					gates["early-timeout-under-lag"]++
+				}
+			}
 			if fo.canon != outs[i].canon && s.spec.timeout != 0 && !c12IsCatastrophic(st.text) &&
 				(strings.HasPrefix(fo.canon, "ERR match timeout") != strings.HasPrefix(outs[i].canon, "ERR match timeout")) {
 				// a wall-clock deadline fired on one side for an input that is not catastrophic (loaded machine):
